@@ -38,6 +38,10 @@ Statement grammar of a translated function body:
   buffer = ByteBuffer(data[<int>:])                     -> `<prefix>_body_offset`
   self.<helper>(<buffer>.pop_slice(<int>)) | self.<helper>(<pop>) | self.<helper>(<buffer>)
   field = SdrTypeLengthString(data=<bytes>[lo:hi])      -> `<prefix>_field_lo/_hi`
+  (TypeLengthString._from_data only) the final `if self.field_type == C [and self.<sdr flag>]: self.string = <decoder>
+  elif … else …` with <decoder> one of: bytes(bytearray(self.raw)).decode('bcd+') | _unpack6bitascii(self.raw) |
+  ''.join([chr(c) for c in self.raw]) | ''.join(self.<TABLE>[e] + self.<TABLE>[e] for b in self.raw)
+                                                        -> `tls_decoders`, `tls_decoders_fru`, `tls_sdr_bcd_hi/_lo/_table`
   self.<attr> = <bytes>[lo:hi]                          -> `<prefix>_<attr>_lo/_hi`
   return <name> | return self.lin(e) -> `<prefix>_lin_arg` | return e -> `<prefix>_return`
 
@@ -740,27 +744,123 @@ def _sixbit(mod, fn):
     return ex
 
 
+def _sdr_flag(ex):
+    """The attribute that carries the `sdr` argument of TypeLengthString.__init__ into _from_data, or None.
+    Accepted only in this form (anything else: TieBroken when a decoder branch tests an attribute):
+      TypeLengthString.__init__(self, …, sdr=False): first statement `self.<flag> = sdr`, before _from_data is called;
+      SdrTypeLengthString.__init__: `super(SdrTypeLengthString, self).__init__(data, sdr=True)` and nothing else."""
+    init = ex.mod.fn(ex.cls.body, '__init__', ex.cls.name)
+    names = [a.arg for a in init.args.args]
+    if 'sdr' not in names:
+        return None
+    dflt = dict(zip(names[len(names) - len(init.args.defaults):], init.args.defaults)).get('sdr')
+    if not (isinstance(dflt, ast.Constant) and dflt.value is False):
+        ex.bad('TypeLengthString.__init__: parameter sdr does not default to False', init)
+    body = [b for b in init.body if not (isinstance(b, ast.Expr) and isinstance(b.value, ast.Constant))]
+    s0 = body[0] if body else None
+    if not (isinstance(s0, ast.Assign) and len(s0.targets) == 1 and (ex.key(s0.targets[0]) or '').startswith('self.') and
+            isinstance(s0.value, ast.Name) and s0.value.id == 'sdr'):
+        return None
+    flag = ex.key(s0.targets[0])[5:]
+    sub = ex.mod.cls('SdrTypeLengthString')
+    sinit = ex.mod.fn(sub.body, '__init__', 'SdrTypeLengthString')
+    sbody = [b for b in sinit.body if not (isinstance(b, ast.Expr) and isinstance(b.value, ast.Constant))]
+    src = ' '.join(ex.src(b) for b in sbody)
+    if not re.match(r'^super\(SdrTypeLengthString, self\)\.__init__\(data, sdr=True\)$', src):
+        ex.bad('SdrTypeLengthString.__init__ does not pass sdr=True (and only that): %s' % src[:120], sinit)
+    if [getattr(b, 'id', None) for b in sub.bases] != [ex.cls.name]:
+        ex.bad('SdrTypeLengthString is not derived from TypeLengthString alone', sub)
+    return flag
+
+
 def _tls_dispatch(ex, s):
-    """if self.field_type == C: self.string = …decode('bcd+') elif … == C: … _unpack6bitascii(self.raw) else: chr"""
-    table, node = [], s
+    """if self.field_type == C [and self.<sdr flag>]: self.string = <decoder> elif … else: chr
+    Emits the decoder table of the SDR path (`sdr=True`: a test of the flag is true) and of the FRU path
+    (`sdr=False`: branches that test the flag are skipped); first match wins (List.lookup)."""
+    flag = _sdr_flag(ex)
+    table, table_fru, node = [], [], s
     while True:
         t = node.test
+        sdr_only = False
+        if isinstance(t, ast.BoolOp) and isinstance(t.op, ast.And) and len(t.values) == 2 and flag is not None and \
+                ex.key(t.values[1]) == 'self.' + flag:
+            sdr_only = True
+            t = t.values[0]
         ok = isinstance(t, ast.Compare) and len(t.ops) == 1 and isinstance(t.ops[0], ast.Eq) and \
             ex.key(t.left) == 'self.field_type'
         if not ok:
-            ex.bad('string decoding is not selected by `self.field_type == <constant>`', node)
+            ex.bad('string decoding is not selected by `self.field_type == <constant> [and self.<sdr flag>]`', node)
         c = ex.tr(t.comparators[0])
         if c.k != 'lit':
             ex.bad('field type compared with a non-constant', node)
-        table.append((int(c.v, 0), _tls_kind(ex, node.body)))
+        kind = _tls_kind(ex, node.body)
+        table.append((int(c.v, 0), kind))
+        if not sdr_only:
+            table_fru.append((int(c.v, 0), kind))
         if len(node.orelse) == 1 and isinstance(node.orelse[0], ast.If):
             node = node.orelse[0]
             continue
         dflt = _tls_kind(ex, node.orelse)
         break
     ex.emit('decoders', '[%s]' % ', '.join('(%d, %d)' % p for p in table), s, kind='const', t='LNN',
-            doc='`if self.field_type == …`: field type ↦ decoder (0 chr of every byte, 1 BCD plus, 2 6-bit packed)')
+            doc='`if self.field_type == …`, first match wins, on the SDR path (`SdrTypeLengthString`: sdr=True): field type ↦ '
+                'decoder (0 chr of every byte, 1 the bcd+ codec = utils.BCD_MAP, 2 6-bit packed, 3 the BCD plus table '
+                'of the class indexed by the two nibbles)')
+    ex.emit('decoders_fru', '[%s]' % ', '.join('(%d, %d)' % p for p in table_fru), s, kind='const', t='LNN',
+            doc='the same on the FRU path (sdr=False: branches that also test the sdr flag are skipped)')
     ex.emit('decoder_default', X('lit', 'N', v=str(dflt)), s, doc='the `else` branch')
+    ex.emit('sdr_flag', '"%s"' % (flag or ''), s, kind='const', t='S',
+            doc='the attribute that carries `sdr` of `__init__` into `_from_data` ("" = none); '
+                '`SdrTypeLengthString.__init__` passes `sdr=True`')
+
+
+def _tls_sdr_bcd(ex, block):
+    """self.string = ''.join(self.<TABLE>[e1] + self.<TABLE>[e2] for b in self.raw) -> defs sdr_bcd_hi / _lo / _table"""
+    if len(block) != 1 or not isinstance(block[0], ast.Assign) or ex.key(block[0].targets[0]) != 'self.string':
+        return False
+    v = block[0].value
+    ok = isinstance(v, ast.Call) and isinstance(v.func, ast.Attribute) and v.func.attr == 'join' and \
+        isinstance(v.func.value, ast.Constant) and v.func.value.value == '' and len(v.args) == 1 and not v.keywords and \
+        isinstance(v.args[0], ast.GeneratorExp) and len(v.args[0].generators) == 1
+    if not ok:
+        return False
+    g = v.args[0].generators[0]
+    e = v.args[0].elt
+    ok = isinstance(g.target, ast.Name) and not g.ifs and not g.is_async and ex.key(g.iter) == 'self.raw' and \
+        isinstance(e, ast.BinOp) and isinstance(e.op, ast.Add) and \
+        all(isinstance(x, ast.Subscript) and (ex.key(x.value) or '').startswith('self.') for x in (e.left, e.right))
+    if not ok or ex.key(e.left.value) != ex.key(e.right.value):
+        return False
+    tname = ex.key(e.left.value)[5:]
+    tabs = [n.value.value for n in ex.cls.body
+            if isinstance(n, ast.Assign) and len(n.targets) == 1 and isinstance(n.targets[0], ast.Name) and
+            n.targets[0].id == tname and isinstance(n.value, ast.Constant) and isinstance(n.value.value, str)]
+    if len(tabs) != 1:
+        ex.bad('BCD plus table %s is not a class-level string constant' % tname, block[0])
+    if ex.mod.live:
+        import importlib
+        try:
+            live = getattr(getattr(importlib.import_module(ex.mod.rel[:-3].replace('/', '.')), ex.cls.name), tname)
+        except Exception as err:  # noqa
+            raise TieBroken('%s: cannot read %s.%s from the imported module: %s' % (ex.mod.rel, ex.cls.name, tname, err))
+        if live != tabs[0]:
+            raise TieBroken('%s: %s.%s is %r in the imported module, %r in the source text' % (
+                ex.mod.rel, ex.cls.name, tname, live, tabs[0]))
+    b = g.target.id
+    if b in ex.env:
+        ex.bad('the loop variable of the BCD plus decoder shadows %s' % b, block[0])
+    ex.env[b] = ex.input(b, 'N', '%s in self.raw' % b)
+    try:
+        hi, lo = ex.tr(e.left.slice), ex.tr(e.right.slice)
+    finally:
+        del ex.env[b]
+    if hi.t != 'N' or lo.t != 'N':
+        ex.bad('BCD plus table index that may be negative', block[0])
+    ex.emit('sdr_bcd_hi', hi, block[0])
+    ex.emit('sdr_bcd_lo', lo, block[0])
+    ex.emit('sdr_bcd_table', '[%s]' % ', '.join(str(ord(c)) for c in tabs[0]), block[0], kind='const', t='LN',
+            doc='`%s.%s = %r` as character codes: the table decoder 3 indexes' % (ex.cls.name, tname, tabs[0]))
+    return True
 
 
 def _tls_kind(ex, block):
@@ -771,6 +871,8 @@ def _tls_kind(ex, block):
         return 2
     if re.match(r"^chr_data = ''\.join\(\[chr\(c\) for c in self\.raw\]\) self\.string = chr_data$", src):
         return 0
+    if _tls_sdr_bcd(ex, block):
+        return 3
     ex.bad('string decoder outside the grammar: %s' % src[:120], block[0] if block else None)
 
 
